@@ -17,10 +17,26 @@ type cellPayload struct {
 func addOverflow(db *Database, pl cellPayload) ([]byte, error) {
 	to := pl.Payload
 	overflow := pl.Overflow
+	var seen map[int]struct{} // overflow pages used, to detect loops
 	for {
 		if overflow == 0 {
+			if int64(len(to)) < pl.Length {
+				// fewer bytes available than the cell claims
+				return nil, ErrCorrupted
+			}
 			return to[:pl.Length], nil
 		}
+		if int64(len(to)) >= pl.Length {
+			// the chain goes on after the payload is complete: a loop, or garbage
+			return nil, ErrCorrupted
+		}
+		if seen == nil {
+			seen = map[int]struct{}{}
+		}
+		if _, ok := seen[overflow]; ok {
+			return nil, ErrCorrupted
+		}
+		seen[overflow] = struct{}{}
 		buf, err := db.page(overflow)
 		if err != nil {
 			return nil, err
